@@ -142,6 +142,20 @@ def gen_C09(v, n):
             out.append(_op("C09", {"l": L, "s": "/".join(segs), "index": i, "repeat": rng.choice([1, 2, 3])}))
     out.append(_op("C09", {"l": ["hamlet/a/char/a/model/v001/w/ma", "hamlet/a/char/a-b/model/v001/w/ma"],
                            "s": "hamlet/a/char/>/model/*/w/*", "index": 3}))
+    # the same universe as a file tree: '>' as the ONLY search symbol (the string may fit several types
+    # at that position), and '>' next to '*'
+    for _ in range(max(2, n // 40)):
+        leaves = families.tree_universe(v)
+        ls = _leaf_strings(leaves)
+        for _ in range(5):
+            segs = rng.choice(ls).split("/")
+            i = rng.randrange(1, len(segs))
+            segs[i] = ">"
+            if rng.random() < 0.4:
+                j = rng.choice([k for k in range(1, len(segs)) if k != i] or [i])
+                if j != i:
+                    segs[j] = "*"
+            out.append(_op("C09", {"tree": True, "leaves": ls, "s": "/".join(segs), "index": i}))
     return out
 
 
@@ -255,7 +269,13 @@ def gen_C11(v, n, model):
         junk = [j for j in junk if j["path"].rsplit("/", 1)[0] in have]
         verdict = model([{"op": "sid", "path": j["path"], "config": cfg} for j in junk])
         junk = [j for j, a in zip(junk, verdict) if a.get("ok", {}).get("type") == ""]
-        out.append(_op("C11", {"leaves": ls, "junk": junk[:8], "searches": _searches(v, leaves, 8) + ["hamlet/a/**", "hamlet/s/**", "hamlet/*"],
+        extra = []
+        for label, fields in list(leaves)[:3]:      # a file whose NAME fits the name pattern of a search it does not match
+            cs = families.confusable_sibling(v, label, fields, cfg)
+            if cs:
+                ls.append("/".join(val for _, val in cs[0]))
+                extra.append(cs[1])
+        out.append(_op("C11", {"leaves": ls, "junk": junk[:8], "searches": _searches(v, leaves, 8) + extra + ["hamlet/a/**", "hamlet/s/**", "hamlet/*"],
                                "const_searches": families.constant_searches(v, leaves, 6)}))
     return out
 
